@@ -52,7 +52,9 @@ func startConnServer() error {
 		os.Chdir(dir)
 		_, priv, _ := ed25519.GenerateKey(rand.Reader)
 		connSigner, _ = gossh.NewSignerFromKey(priv)
-		ak := gossh.MarshalAuthorizedKey(connSigner.PublicKey())
+		// (a comment in front of and behind the key: a file as users have them)
+		ak := append([]byte("# keys of root\n"), gossh.MarshalAuthorizedKey(connSigner.PublicKey())...)
+		ak = append(ak, []byte("# end of file\n")...)
 		os.WriteFile(filepath.Join(dir, "cache", "root.authorized_keys"), ak, 0o600)
 		config.Server.HostKeyBits = 2048
 		config.Server.HostKeyFile = filepath.Join(dir, "cache", "ssh_host_key")
@@ -80,13 +82,32 @@ func startConnServer() error {
 	return err
 }
 
+// readCount reads the server's counter; a counter that cannot be read within two seconds (a stuck
+// mutex) is reported as -1000 so that the history is judged instead of hanging the harness
+func readCount() int {
+	ch := make(chan int, 1)
+	go func() { ch <- connSrv.VerifCurrentConnections() }()
+	select {
+	case v := <-ch:
+		return v
+	case <-time.After(2 * time.Second):
+		return -1000
+	}
+}
+
 func settleCount() int {
-	last := connSrv.VerifCurrentConnections()
+	last := readCount()
+	if last == -1000 {
+		return last
+	}
 	stable := time.Now()
 	deadline := time.Now().Add(1500 * time.Millisecond)
 	for time.Now().Before(deadline) {
 		time.Sleep(10 * time.Millisecond)
-		c := connSrv.VerifCurrentConnections()
+		c := readCount()
+		if c == -1000 {
+			return c
+		}
 		if c != last {
 			last, stable = c, time.Now()
 		} else if time.Since(stable) > 150*time.Millisecond {
